@@ -29,7 +29,7 @@ def plan(tier, seed):
         shards.append({"name": f"skel{i}", "gen": "skel", "items": items[i::nsh]})
     shards.append({"name": "xor", "gen": "xor"})
     secs = 25 if quick else 280
-    for g in ("cmd", "pe", "xorbytes", "matryoshka", "seedmut", "soup", "repeat", "url", "ioc", "expand", "twopaths", "overlap", "unicase"):
+    for g in ("cmd", "pe", "xorbytes", "matryoshka", "seedmut", "soup", "repeat", "url", "ioc", "expand", "twopaths", "overlap", "unicase", "codec"):
         shards.append({"name": g, "gen": g, "seconds": secs})
     if not quick:
         for g in ("seedmut", "cmd", "url", "repeat", "soup"):
